@@ -62,13 +62,18 @@ def run_case(M, f, t, job, case):
     ex = M.Exporter(raw, None if fmt is None else fmt.encode("latin1"), case["itemsize"], case["shape"], case["strides"],
                     case.get("readonly", False), case.get("offset", 0), case.get("strict", True))
     try:
-        got = f(ex)
+        # legacy-buffer kernels cannot ask the buffer for its shape: extents are passed along (as many as the kernel
+        # declares dimensions, whatever the exporter claims)
+        got = f(ex, *job["extents"](case)) if job["kind"] == "lb" else f(ex)
         outcome = "ok"
     except Exception as e:      # noqa
         got = e
         outcome = type(e).__name__
-    gc.collect()
     gets, rels = ex.gets, ex.releases
+    if gets != rels:
+        got = None if outcome != "ok" else got
+        gc.collect()
+        gets, rels = ex.gets, ex.releases
     exp = case["expect"]
     if exp == "either":
         return None, outcome
@@ -93,6 +98,8 @@ def run_case(M, f, t, job, case):
 
 
 def run_job(M, job):
+    nd = job.get("nd", 1)
+    job["extents"] = lambda case: (list(case["shape"]) + [1] * nd)[:nd]
     t = bufdecl.decls()[job["dtype"]]
     f = getattr(M, job["k"])
     n = nt = nbad = 0
